@@ -69,6 +69,21 @@ def oracle_fails(pid, rec):
 NOT_APPLICABLE = {}
 
 PROPS = {
+    "C14": {
+        "manifest_text": "Lean 4 theorems (36) about the model of the array filters (sort comparator after the fix: commit): sort, sort_natural and reverse return permutations of their input for every comparator; under a total-preorder hypothesis (proved for the repaired comparator on every mixture of integers/strings/booleans/dates/nils/markers, on floats with strings etc., and on floats with integers below 2^53) sort is sorted, stable, idempotent and nil-last, and any stable sorted permutation equals the model's (what ties std's sort_by to the model); sort_natural needs no hypothesis; uniq keeps exactly the first occurrences; compact removes exactly the nils; concat length is additive; map/where are filterMaps; first/last/size/slice/join agree with indexing; no modelled filter panics. Tied to /repo by exhaustive arrays of length 0..5 over the pool, random arrays up to 60 in every initial order incl. mixed incomparable types.",
+        "manifest_note": "Trusted: Lean kernel + allowed axioms, theorem statements, hand-written model (validated differentially); std sort_by is assumed stable on consistent comparators (uniqueness theorem ties it to the model); str::to_lowercase is a parameter (table supplied by the driver). Residual genuine defect listed as known findings (exact inputs): partial_cmp is inconsistent inside one kind (integers >= 2^53 mixed with floats, dates mixed with date-times, arrays with incomparable members, objects), where std's sort_by may still panic; on inconsistent comparators only the spec (permutation, no panic) is consulted.",
+        "technique": "Lean 4 proof (permutation, stable-sort uniqueness, lexicographic total preorder) + differential correspondence",
+        "design_ref": "DESIGN.md section 7 C14",
+        "rule": "cases = every array of length 0..5 (quick: 0..4 for the 5- and 7-value pools) over pools of integers/strings/mixed scalars with duplicates, nils and case variants through sort, sort_natural, uniq, reverse, compact, first, last, size, join and the jekyll sort; every array of length 0..4 (quick 0..3) over 8 one-/two-key objects (property present, missing, nil, false) through sort/sort_natural/map/where/compact with a property, where with 5 targets, uniq, reverse, first, last, size; the slice offset x length grid for lengths 0..6; concat of all pairs of arrays of length <= 2; 9 non-array inputs x 14 filters x 8 argument lists; random arrays of length <= 60 (3/4 of them longer than 20) over 8 pools (integers incl. i64 extremes, strings, int+string, mixed scalars with nil/bool/date, floats incl. NaN/inf, int+float, single-key objects for plain sort, heterogeneous objects for the property filters) each in 4 initial orders (ascending by encoding, descending, two shuffles); 180 shuffles of the D8 shape (24/40/60 alternating integers and strings); 16 fixed witnesses of comparators that remain inconsistent (i64 vs f64 beyond 2^53, date vs datetime with different offsets, arrays with incomparable members, objects with heterogeneous values). non-trivial = distinct (filter, input, arguments) whose observation is not an empty string",
+        "explanation": "Lean theorems C14_* about the model of filters/array.rs, slice.rs, size (permutation for every comparator; sorted/stable/idempotent/nil-last under TotalPreorderOn and unconditionally for sort_natural; uniqueness of the stable sorted arrangement, which ties std's sort_by to the model's mergeSort wherever the comparator is consistent; the repaired comparator is a total preorder on all mixtures of integers|floats, strings, booleans, dates, nils; uniq/compact/concat/map/where/first/last/size/slice/join laws) + differential run: the executable spec (Spec/C14.lean) judges the implementation's observation on every case, the model must agree on every case whose comparator is a total preorder on the input (decided per case by totalPreorderOnB, proved exact)",
+        "exhaustive": True,
+        "assumptions": [
+            "std's slice::sort_by is a stable sort whenever the comparator is a total preorder on the slice (then C14_stable_unique makes its result equal to the model's); on other comparators only 'permutation, no panic' is demanded of the implementation",
+            "str::to_lowercase agrees with the driver's table on the generator's alphabet (ASCII, Latin-1, basic Cyrillic); the theorems hold for every lower-casing function",
+            "HashMap clone preserves iteration order (the comparator of plain sort on multi-key objects looks at entry order, D12); results are compared up to object entry order",
+        ],
+        "trusted": ["Rust std slice::sort_by (stable on consistent comparators)"],
+    },
     "C17": {
         "manifest_text": "Lean 4 theorems (29): an independent proleptic Gregorian calendar proved correct from first principles (civil <-> day-number round trip for all days, weekday, ordinal, %U/%W week numbers, ISO week date, offset arithmetic keeps the instant); eq/cmp of date-times are those of the instant regardless of offset; default print then parse returns the same local time, offset and instant (years -9999..9999, minute-granular offsets); the model of strftime.rs never panics for any format text, echoes unknown (incl. non-ASCII) directives verbatim, reports malformed formats as errors, prints every numeric directive as its field padded per flag/width and %L/%N as the leading digits of the 9-digit nanosecond (after the fix: commits). Tied to /repo by a differential run over boundary timestamps x directives x flags x widths, random formats, all accepted parse syntaxes, and a per-case comparison of the time crate's calendar fields with the Lean calendar.",
         "manifest_note": "Trusted: Lean kernel + allowed axioms, theorem statements, hand-written models (validated differentially). The time crate's own formatter/parser are modelled syntax-wise and compared on every run, not verified; alphabetic and composite directives are checked differentially only.",
